@@ -562,6 +562,7 @@ fn main() {
         "c07_compose" => bounded::c07_compose(),
         "c14_elements" => bounded::c14_elements(),
         "c13_minwrap" => bounded::c13_minwrap(),
+        "c12_contflag" => bounded::c12_contflag(),
         "bnd_c08" => bounded::bnd_c08(),
         "bnd_c13" => bounded::bnd_c13(),
         "bnd_c18" => bounded::bnd_c18(),
@@ -602,7 +603,7 @@ pub fn dbgfrag() {
     match cfg.lines_from_read(html.as_bytes(), width) {
         Ok(lines) => for l in lines {
             let mut out = String::new();
-            for e in l.iter() { match e { TaggedLineElement::FragmentStart(f) => out.push_str(&format!("<#{}>", f)), TaggedLineElement::Str(ts) => out.push_str(&format!("{:?}", ts.s)) } }
+            for e in l.iter() { match e { TaggedLineElement::FragmentStart(f) => out.push_str(&format!("<#{}>", f)), TaggedLineElement::Str(ts) => out.push_str(&format!("{:?}{}", ts.s, if flags.contains('t') { format!("{:?}", ts.tag) } else { String::new() })) } }
             println!("{}", out);
         },
         Err(e) => println!("ERR: {:?}", e),
